@@ -165,6 +165,8 @@ def real_line(c):
         return "err BadUserInput"
     except MagpylibMissingInput:
         return "err MissingInput"
+    except Exception as e:  # any other exception type is itself a disagreement with the model
+        return f"EXC {type(e).__name__}: {str(e)[:120]}"
     B = np.asarray(B)
     r = np.rint(B)
     if np.max(np.abs(B - r)) > 1e-6:
